@@ -606,7 +606,10 @@ class Interp:
                 self.site(ctx, e, "Spacing", F("LS"), b if isinstance(b, frozenset) else TOP)
             return F("NOTNONE")
         if isinstance(e, ast.Attribute):
-            self.eval(e.value, env, ctx)
+            r = self.eval(e.value, env, ctx)
+            # attribute of a value that is None on this path (e.g. the token class of a blank token)
+            if isinstance(r, frozenset) and "NONE" in r and isinstance(e.value, ast.Name):
+                self.site(ctx, e, "AttributeError", F("NOTNONE"), r)
             return TOP
         if isinstance(e, ast.Call):
             r = self.eval_call(e, env, ctx)
@@ -624,6 +627,9 @@ class Interp:
                 self.eval(x, env, ctx)
             return F("NOTNONE", "EMPTY") if not e.keys else F("NOTNONE", "NE")
         if isinstance(e, (ast.JoinedStr,)):
+            for v in e.values:
+                if isinstance(v, ast.FormattedValue):
+                    self.eval(v.value, env, ctx)
             return F("STR", "NOTNONE")
         if isinstance(e, ast.IfExp):
             self.eval(e.test, env, ctx)
